@@ -25,6 +25,8 @@ VARIABLES cfg, val, old, cur, kt, cap, rej, conv, t, loop, pc, idx, new, metro, 
           moved,   \* size of the last proposal's move in millionths of the configured maximum
                    \* (measured by the harness on the f64 values: a finer scale than Fx)
           outside, \* number of parameters strictly outside their declared range by exact f64 comparison
+          stale,   \* evaluations so far whose score differed from the score of a fresh copy of the
+                   \* same state (the state written to JSON and read back), where the harness compared
           l        \* number of log lines consumed
 
 Undef == -1
@@ -41,7 +43,7 @@ O == INSTANCE Optimiser WITH Fx <- TFx, MoveCap <- TMoveCap, AdaptOK <- TAdaptOK
         Configs <- {}, Values <- {}, Scores <- {}
 
 ovars == O!vars
-tvars == <<ovars, moved, outside, l>>
+tvars == <<ovars, moved, outside, stale, l>>
 
 \* program counter implied by what the implementation did next
 PcBefore(k) ==
@@ -81,6 +83,7 @@ Init ==
   /\ idx = 1 /\ new = Undef /\ metro = "no" /\ lstart = Undef /\ imp = "na"
   /\ early = FALSE /\ fin = {} /\ accCur = Undef /\ evals = 0 /\ dl = {}
   /\ lastKt = O!KtOf(e.cfg) /\ stage = 1 /\ hist = <<>> /\ ref = <<>> /\ moved = 0 /\ outside = e.out
+  /\ stale = 0
 
 Start(e) ==
   /\ e.ev = "start"
@@ -177,6 +180,7 @@ Next ==
   /\ l' = l + 1
   /\ moved' = IF Log[l + 1].ev = "propose" THEN Log[l + 1].rel ELSE moved
   /\ outside' = IF Log[l + 1].ev \in {"start", "propose", "eval", "decide", "final"} THEN Log[l + 1].out ELSE outside
+  /\ stale' = IF Log[l + 1].ev = "eval" /\ ~Log[l + 1].fresh THEN stale + 1 ELSE stale
   /\ LET e == Log[l + 1] IN
        Start(e) \/ Begin(e) \/ Propose(e) \/ Eval(e) \/ Draw(e) \/ Decide(e) \/ EndLoop(e)
        \/ Final(e) \/ Observe(e) \/ Panic(e)
@@ -198,6 +202,7 @@ C08Done == O!C08Done
 C04Frozen == cfg.checkRange => O!C04Frozen
 C18 == O!C18
 C18Finish == O!C18Finish
+C18Zero == O!C18Zero
 C19 == O!C19
 C19Cap == O!C19Cap
 \* C19 on a scale relative to the configured maximum (one part in a million), so that an excess
@@ -207,6 +212,9 @@ C20NoPanic == O!C20NoPanic
 C20Work == O!C20Work
 C20Conv == O!C20Conv
 C20Prefix == O!C20Prefix
+\* C11 (and C02, C03): the score is a function of the state as it is - a state object with a
+\* history behind it scores exactly like a fresh copy read back from its JSON form
+C11Fresh == stale = 0
 C11Same == O!C11Same
 C11SameDone == O!C11SameDone
 
